@@ -260,6 +260,16 @@ fn main() {
                         }
                         // local empty, peer flat
                         "flat-empty-local" => (vec![], flat(2, 7)),
+                        // a root followed by n single-key ranges in DESCENDING key order (every insert into
+                        // the range lists is out of order), different digests
+                        "flat-descending" => {
+                            let mk = |hr: u8, hc: u8| -> Vec<tree::OwnedRange> {
+                                let mut v = vec![(key(0), key(4 * depth + 4), [hr; 16])];
+                                v.extend((0..depth).rev().map(|i| (key(4 * i + 1), key(4 * i + 1), [hc; 16])));
+                                v
+                            };
+                            (vec![(key(0), key(4 * depth + 4), [1; 16])], mk(2, 4))
+                        }
                         other => {
                             eprintln!("unknown shape {other}");
                             std::process::exit(2)
